@@ -290,6 +290,7 @@ class State:
         self.cmp_facts: List[tuple] = []
         self.counter = 0
         self.kind_refine: Dict[tuple, str] = {}
+        self.type_dims: Dict[str, dict] = {}
         self.notes: List[str] = []
 
     # -- fresh ids
@@ -299,7 +300,7 @@ class State:
 
     # -- types
     def new_type(self, tid=None, generic=False, **attrs) -> str:
-        tid = tid or self.fresh("T")
+        tid = tid or self.fresh("R")
         t = TypeS(tid, generic)
         for k, v in attrs.items():
             setattr(t, k, v)
@@ -439,6 +440,24 @@ class State:
             raise Infeasible
         self.udistinct.add(frozenset((a, b)))
 
+    def dims_of_type(self, tid) -> dict:
+        """Dimension vector of a type over the symbolic parameter types."""
+        tid = self.tfind(tid)
+        d = self.type_dims.get(tid)
+        if d is None:
+            for k, v in self.type_dims.items():
+                if self.tfind(k) == tid:
+                    d = v
+                    break
+        if d is None:
+            return {tid: (1, 0)}
+        out = {}
+        for k, e in d.items():
+            k2 = self.tfind(k) if k in self.tparent else k
+            o = out.get(k2, (0, 0))
+            out[k2] = (o[0] + e[0], o[1] + e[1])
+        return {k: e for k, e in out.items() if e != (0, 0)}
+
     def ref_unit(self, tid) -> str:
         t = self.T(tid)
         if t.ref_uid is None:
@@ -458,7 +477,7 @@ class State:
 
     def norm(self, rf: RF) -> RF:
         for _ in range(8):
-            if not (rf.atoms() & set(self.subst)):
+            if not (rf.atoms() & set(self.subst)) and not (("n",) in self.subst and rf.has_sym_exp()):
                 return rf
             rf = rf.subst(self.subst)
         return rf
